@@ -122,18 +122,21 @@ def check_P_identity(case):
     th = case["theta"]
     order = ConeTheta2DOrder(th)
     W = np.asarray(order.ordering_cone.W, float)
-    Y = np.array(case["Y"], float)
+    # the order is translation invariant and positively homogeneous: values may sit far from the origin with a small spread
+    spread, off = float(case.get("spread", 1.0)), float(case.get("offset", 0.0))
+    Y = off + spread * np.array(case["Y"], float)
     K = len(Y)
     X = hdata.grid_inputs(K, case["d"])
     name = hdata.register_dataset(X, Y)
     try:
-        alg = NaiveElimination(0.1, 0.1, name, order, case["noise_var"], L=case["L"])
+        alg = NaiveElimination(0.1 * spread, 0.1, name, order, case["noise_var"] * spread * spread, L=case["L"])
     finally:
         hdata.unregister_dataset(name)
     rec = Recorder(alg.problem)
     alg.problem.evaluate = rec
     set_seed(case["seed"])
-    labels = [f"K={K}", "L<=50" if case["L"] <= 50 else "L>50"]
+    labels = [f"K={K}", "L<=50" if case["L"] <= 50 else "L>50"] + (["far-from-origin"] if off else [])
+    band = max(1e-9 * spread, 1e-13 * abs(off) * (case["L"] + 1))  # float64 rounding of the running means
     nt = False
     sums = np.zeros((K, 2))
     cnt = np.zeros(K)
@@ -152,7 +155,7 @@ def check_P_identity(case):
             return Result.violation("C08:P:design-never-sampled", f"counts {cnt.tolist()}", labels)
         means = sums / cnt[:, None]
         V = np.abs((means[:, None, :] - means[None, :, :]) @ W.T)
-        if np.any((V < 1e-9) & ~np.eye(K, dtype=bool)[:, :, None]):
+        if np.any((V < band) & ~np.eye(K, dtype=bool)[:, :, None]):
             continue
         D = geom.dominance_matrix(means, W)
         strict = D & ~D.T
@@ -172,7 +175,8 @@ def st_pid(draw):
     K = draw(st.integers(2, 7))
     return {"theta": draw(st.sampled_from([30.0, 60.0, 90.0, 120.0, 150.0])), "d": draw(st.integers(1, 3)),
             "Y": [[draw(st.floats(-1, 1)), draw(st.floats(-1, 1))] for _ in range(K)], "noise_var": draw(gen.st_logfloat(1e-3, 1.0)),
-            "L": draw(st.one_of(st.integers(1, 6), st.integers(1, 6), st.integers(45, 130))), "seed": draw(st.integers(0, 2**31 - 1))}
+            "L": draw(st.one_of(st.integers(1, 6), st.integers(1, 6), st.integers(45, 130))),
+            "offset": draw(st.sampled_from([0.0, 0.0, 1e4, -1e6])), "spread": draw(st.sampled_from([1.0, 1.0, 1e-3])), "seed": draw(st.integers(0, 2**31 - 1))}
 
 
 def check_monte_carlo(case):
@@ -196,7 +200,7 @@ def check_monte_carlo(case):
         if g1 <= 1e-6:
             continue
         Y.append((top - u * eps * (1 + eta) / g1).tolist())
-    Y = np.array(Y)
+    Y = np.array(Y) + float(case.get("offset", 0.0))
     K = len(Y)
     if K < 3:
         return Result.indet(["too-few-designs"])
@@ -205,7 +209,7 @@ def check_monte_carlo(case):
     try:
         alg0 = NaiveElimination(eps, delta, name, order, nv)
         L = int(alg0.L)
-        labels = [f"K={K}", "noise<1" if case["noise_var"] < 1 else "noise>=1", f"unit={unit:g}"]
+        labels = [f"K={K}", "noise<1" if case["noise_var"] < 1 else "noise>=1", f"unit={unit:g}"] + (["far-from-origin"] if case.get("offset") else [])
         if L > 4000:
             return Result.indet(labels + ["L-too-large-for-MC"])
         # gaps and coverage on the truth
@@ -242,7 +246,8 @@ def st_mc(draw):
     return {"theta": draw(st.sampled_from([45.0, 60.0, 90.0, 120.0])), "eps": draw(st.sampled_from([0.2, 0.5, 1.0])),
             "delta": draw(st.sampled_from([0.05, 0.1, 0.2])), "noise_var": draw(st.sampled_from([0.01, 0.05, 0.25, 1.0, 2.0])),
             "psi": [draw(st.floats(-0.9, 0.9)) for _ in range(n)], "etas": [draw(gen.st_logfloat(0.01, 0.3)) for _ in range(n)],
-            "runs": 60, "seed": draw(st.integers(0, 2**30)), "unit": draw(st.sampled_from([1.0, 1.0, 1e-4, 1e-2, 1e3]))}
+            "runs": 60, "seed": draw(st.integers(0, 2**30)), "unit": draw(st.sampled_from([1.0, 1.0, 1e-4, 1e-2, 1e3])),
+            "offset": draw(st.sampled_from([0.0, 0.0, 1e4]))}
 
 
 COMPONENTS = [
